@@ -16,7 +16,7 @@
 From Coq Require Import List NArith Bool.
 From TG.Model Require Import Includes Host HostInst.
 From TG.Proofs Require Import IncludesGraph IncludesRefine HostIndex IncludesLinks HostHistory
-     HostTheorems HostExamples.
+     HostTheorems HostTotal HostExamples.
 Import ListNotations.
 Local Open Scope nat_scope.
 
@@ -42,6 +42,17 @@ Theorem C16_fuel_bound :
   (forall q, In q R -> length (succs rd extra q) <= D) ->
   fuel_bound rd extra R <= 1 + length R * (1 + D).
 Proof. exact (@session_fuel_bound). Qed.
+
+(** whole sessions over a FINITE world: [R] contains every file on disk and every touched path (none a
+    file-system root), every text involved has at most [D] include statements; then ONE explicit fuel,
+    1 + |R|*(1+D), makes every step of every history return *)
+Theorem C16_session_terminates :
+  forall (path istr : Type) (PA : PathAlg path istr) (PAok : PathAlgOk path istr)
+         (w : world path istr) h R D fuel,
+  finite_session w h R D ->
+  1 + length R * (1 + D) <= fuel ->
+  exists st : @state path istr, run fuel w st_init h = Done st.
+Proof. exact (@run_total). Qed.
 
 (** the workspace (SourceRoot) is exactly the set of files reachable through resolvable includes,
     each once, rooted at the touched document *)
@@ -168,6 +179,7 @@ Check C16_once :
 
 Print Assumptions C16_terminates.
 Print Assumptions C16_fuel_bound.
+Print Assumptions C16_session_terminates.
 Print Assumptions C16_reach.
 Print Assumptions C16_links.
 Print Assumptions C16_notfound.
